@@ -23,6 +23,45 @@ import trace as T
 Z = 6.1     # two-sided normal tail 1e-9
 
 
+
+class RecPool:
+    """wraps the pool handed to NautilusBound.sample and keeps what the workers returned"""
+
+    def __init__(self, inner):
+        self.inner = inner
+        self.results = []
+
+    @property
+    def size(self):
+        return self.inner.size
+
+    def map(self, func, iterable):
+        res = list(self.inner.map(func, iterable))
+        self.results.append(res)
+        return res
+
+
+def counters_of(b):
+    return (int(b.n_sample), int(b.n_reject), int(b.outer_bound.n_sample), int(b.outer_bound.n_reject), len(b.points))
+
+
+def merge_check(b, p, c0, lab, fails, st):
+    """pool path (C08_merge): the parent's counters of both levels advance by exactly the sums of the workers' counters and its
+    buffer by exactly the workers' points"""
+    if p is None or not p.results:
+        return
+    workers = p.results.pop()
+    p.results.clear()
+    want = (c0[0] + sum(int(w.n_sample) for w in workers), c0[1] + sum(int(w.n_reject) for w in workers),
+            c0[2] + sum(int(w.outer_bound.n_sample) for w in workers), c0[3] + sum(int(w.outer_bound.n_reject) for w in workers))
+    got = counters_of(b)
+    st['merges'] = st.get('merges', 0) + 1
+    names = ('n_sample', 'n_reject', 'outer_bound.n_sample', 'outer_bound.n_reject')
+    for k in range(4):
+        if got[k] != want[k]:
+            fails.append('%s: after sampling through a pool %s is %d, the counters before plus the workers\' counters give %d' % (lab, names[k], got[k], want[k]))
+            return
+
 def qlit(x):
     x = float(x)
     if x == 0:
@@ -278,10 +317,14 @@ def statistical(nb, seed, tier):
                 with np.errstate(all='ignore'):
                     b = B.NautilusBound.compute(pts, ll, lmin, -1.0 * d, n_networks=nn, neural_network_kwargs=dict(hidden_layer_sizes=(12, 6), max_iter=150),
                                                 n_points_min=d + 10, split_threshold=1.0, rng=np.random.default_rng(int(rng.integers(1 << 30))))
-                    p = nb.pool.NautilusPool(T.FakePool(pool, 2, pickle_func=True)) if pool else None
+                    p = RecPool(nb.pool.NautilusPool(T.FakePool(pool, 2, pickle_func=True))) if pool else None
+                    c0 = counters_of(b)
                     s = b.sample(N // 4, pool=p)
+                    merge_check(b, p, c0, 'NautilusBound-%d-n%d-pool' % (d, nn), fails, st)
                     while b.n_sample < 200000:
+                        c0 = counters_of(b)
                         b.sample(20000, pool=p)
+                        merge_check(b, p, c0, 'NautilusBound-%d-n%d-pool' % (d, nn), fails, st)
                     vhat = math.exp(b.log_v)
                     cr = b.contains(ref)
                 st['draws'] += N // 4
@@ -383,7 +426,7 @@ def main(run: Run, audit):
     run.cov.update(evaluations=n_props + st['draws'] + st['ref'], distinct_nontrivial=n_calls,
                    rule='replayed sample() calls on unions (overlapping, three clusters, cut by a face, with trimmed outliers; ellipsoid and mixture members; unit and free) and nautilus bounds '
                         '(0/1 networks, periodic or not): every proposal with its multiplicity and uniform draw goes through the Gallina model; statistical tests on %d+ draws per bound' % 100000,
-                   replayed_calls=n_calls, replayed_proposals=n_props, statistical_draws=st['draws'], reference_points=st['ref'], statistical_tests=st['tests'],
+                   replayed_calls=n_calls, replayed_proposals=n_props, statistical_draws=st['draws'], reference_points=st['ref'], statistical_tests=st['tests'], pool_merges_checked=st.get('merges', 0),
                    disagreements_checked=len(mism), direct_predicate_failures=len(fails),
                    samples=[dict(label=cases[0]['label'], first_call=dict(n=cases[0]['seq'][0]['n'], batches=len(cases[0]['seq'][0]['batches']), proposals=cases[0]['seq'][0]['batches'][0][1][:3] if cases[0]['seq'][0]['batches'] else []))])
     if fails:
